@@ -39,8 +39,22 @@ SubMD(want, got) == \A k \in DOMAIN want :
                       /\ \E i \in 1..(Len(got[k]) - Len(want[k]) + 1) : SubSeq(got[k], i, i + Len(want[k]) - 1) = want[k]
 
 -----------------------------------------------------------------------------
+\* WebSocket: the status travels in the close frame - the mapped close code and the message as far as 123 bytes carry
+\* it.  A handler that returns OK closes normally (1000, or a close frame without a code: 1005).  When the client
+\* closed first (wsclose) what it reads back is the echo of its own close.
+WsStatusOK(e, c, v) ==
+  /\ e.cl.http = 101 /\ e.cl.status.present
+  /\ IF e.c.wsclose   \* the echo of the client's close, or the server's own if the handler finished first
+     THEN \/ e.cl.status.code \in {1000, 1005}
+          \/ (v.failed /\ v.code # AnyError /\ e.cl.status.code = WSStatus(v.code))
+          \/ (v.code = AnyError /\ e.cl.status.code \notin {1000, 1005})
+     ELSE IF v.code = AnyError THEN e.cl.status.code \notin {1000, 1005}
+     ELSE IF ~v.failed THEN e.cl.status.code \in {1000, 1005}
+     ELSE /\ e.cl.status.code = WSStatus(v.code)
+          /\ (IF e.cl.wsfits THEN e.cl.status.name = "equal" ELSE e.cl.status.name \in {"equal", "prefix"})
 StatusOK(e, c, v) ==
-  IF v.code = AnyError THEN   \* the request could not be read: some error, whatever its code
+  IF c.proto = "ws" THEN WsStatusOK(e, c, v)
+  ELSE IF v.code = AnyError THEN   \* the request could not be read: some error, whatever its code
     /\ e.cl.status.present /\ e.cl.status.code # 0
     /\ (~IsGrpc(c.proto) => e.cl.http >= 400)
   ELSE IF IsGrpc(c.proto) THEN
@@ -78,7 +92,7 @@ RecvOK(e, c, v) ==
 \* HTTP transcoding has no status channel: what the body looks like once replies were sent and the
 \* handler then fails is unspecified
 RepliesOK(e, c, v) ==
-  \/ (~IsGrpc(c.proto) /\ v.failed /\ v.sentAny)
+  \/ (~HasStatusChannel(c.proto) /\ v.failed /\ v.sentAny)
   \/ /\ Len(e.cl.msgs) = Len(v.msgs)
      /\ \A k \in DOMAIN v.msgs : e.cl.msgs[k].err = "" /\ e.cl.msgs[k].idx = v.msgs[k] /\ e.cl.msgs[k].equal
 SendResOK(e, v) == [k \in DOMAIN e.h.sends |-> e.h.sends[k].err] = v.sendRes
@@ -87,10 +101,12 @@ NeverOverLimit(e, c) ==
   c.maxrecv > 0 => \A k \in DOMAIN e.h.recv : e.h.recv[k].err = "" => e.h.recv[k].size <= c.maxrecv
 
 \* metadata
-HdrOK(e, c, v) == SubMD(v.hdr, e.cl.hdr)
+\* (a WebSocket session has no place for response metadata)
+HdrOK(e, c, v) == c.proto = "ws" \/ SubMD(v.hdr, e.cl.hdr)
 TrlOK(e, c, v) == CarriesTrailers(c.proto) => SubMD(v.trl, e.cl.trl)
 HdrResOK(e, v) == e.h.hdrerrs = v.hdrRes
 ContentTypeOK(e, c) ==
+  \/ c.proto = "ws"
   \* an HTTP response without a body needs no content type; if there is one it is the protocol's
   \/ (~IsGrpc(c.proto) /\ ~Has(e.cl.hdr, "content-type"))
   \/ /\ Has(e.cl.hdr, "content-type")
@@ -148,7 +164,7 @@ Judge(e) ==
        THEN (IF ~RecvOK(e, c, v) THEN {"RecvSeq"} ELSE {}) \cup (IF ~NeverOverLimit(e, c) THEN {"NeverOverLimit"} ELSE {})
   ELSE (IF ~StatusOK(e, c, v) THEN {"StatusFidelity"} ELSE {})
    \cup (IF ~RecvOK(e, c, v) THEN {"RecvSeq"} ELSE {})
-   \cup (IF ~RepliesOK(e, c, v) \/ (~e.cl.clean /\ ~(~IsGrpc(c.proto) /\ v.failed /\ v.sentAny)) THEN {"ReplySeq"} ELSE {})
+   \cup (IF ~RepliesOK(e, c, v) \/ (~e.cl.clean /\ ~(~HasStatusChannel(c.proto) /\ v.failed /\ v.sentAny)) THEN {"ReplySeq"} ELSE {})
    \cup (IF ~SendResOK(e, v) THEN {"SendResult"} ELSE {})
    \cup (IF ~NeverOverLimit(e, c) THEN {"NeverOverLimit"} ELSE {})
    \cup (IF ~HdrOK(e, c, v) THEN {"MetadataOutHeader"} ELSE {})
